@@ -47,6 +47,9 @@ func c07Ops() []c07Op {
 		}
 	}
 	ops = append(ops, c07Op{"borrow(cap-1)", "borrow", "", -1}, c07Op{"borrow(cap)", "borrow", "", 0}, c07Op{"borrow(cap+1)", "borrow", "", 1}, c07Op{"borrow(7)", "borrow", "", 7})
+	// elapse: time passes and NOTHING books the borrower's interest (pending, un-stacked interest at
+	// the next op) — accrue books it at once, the way the every-block sweep does
+	ops = append(ops, c07Op{"elapse(1d)", "elapse", "", 86400})
 	ops = append(ops, c07Op{"accrue(1d)", "accrue", "", 86400}, c07Op{"repay(half)", "repay", "", 2}, c07Op{"repay(all)", "repay", "", 1})
 	return ops
 }
@@ -325,6 +328,9 @@ func (r *c07Run) dfs(ctx sdk.Context, depth, maxDepth int, path []string, first 
 		if op.Kind == "accrue" {
 			c = c.WithBlockTime(c.BlockTime().Add(time.Duration(op.Amt) * time.Second)).WithBlockHeight(c.BlockHeight() + 1)
 			r.apply(ctx2(c, -op.Amt), op, np)
+		} else if op.Kind == "elapse" {
+			c = c.WithBlockTime(c.BlockTime().Add(time.Duration(op.Amt) * time.Second)).WithBlockHeight(c.BlockHeight() + 1)
+			r.st.Clauses["elapse"]++
 		} else {
 			r.apply(c, op, np)
 		}
@@ -415,7 +421,9 @@ func c07RunUnit(w *World, u c07Unit, deadline time.Time, fixed []string) *KStats
 				if op.Name == name {
 					c, _ := ctx.CacheContext()
 					r.st.Evaluations++
-					if op.Kind == "accrue" {
+					if op.Kind == "elapse" {
+						c = c.WithBlockTime(c.BlockTime().Add(time.Duration(op.Amt) * time.Second)).WithBlockHeight(c.BlockHeight() + 1)
+					} else if op.Kind == "accrue" {
 						c = c.WithBlockTime(c.BlockTime().Add(time.Duration(op.Amt) * time.Second)).WithBlockHeight(c.BlockHeight() + 1)
 						r.apply(ctx2(c, -op.Amt), op, fixed[:d+1])
 					} else {
